@@ -32,7 +32,7 @@ type FaultPlan struct {
 	Err string `json:"err,omitempty"`
 }
 
-var errKinds = []string{"", "temporary", "timeout", "shortwrite", "eof", "closedpipe", "epipe", "deadline", "slice", "mapstruct", "joined"}
+var errKinds = []string{"", "temporary", "timeout", "shortwrite", "eof", "closedpipe", "epipe", "deadline", "slice", "mapstruct", "joined", "emptymsg", "hugemsg"}
 
 // Error values of UNCOMPARABLE dynamic types (a slice type, as errors.Join-like aggregates
 // are; a struct value with a map field): comparing two of them with == panics, so code that
@@ -90,6 +90,12 @@ type simErr struct {
 }
 
 func (e *simErr) Error() string {
+	switch e.kind {
+	case "emptymsg": // an error whose message is empty (still a non-nil error)
+		return ""
+	case "hugemsg": // ... or very long (a wrapped dump)
+		return fmt.Sprintf("simulated writer failure #%d: %s", e.id, strings.Repeat("x", 70000))
+	}
 	if e.kind != "" {
 		return fmt.Sprintf("simulated writer failure #%d (%s)", e.id, e.kind)
 	}
@@ -485,6 +491,21 @@ type stringSink struct{ s *Sink }
 func (f *stringSink) Write(p []byte) (int, error)       { return f.s.Write(p) }
 func (f *stringSink) WriteString(p string) (int, error) { f.s.aux++; return f.s.Write([]byte(p)) }
 
+// readFromSink: Write + ReadFrom (io.ReaderFrom), like *os.File or a net.Conn wrapper: code
+// that copies with io.Copy, or a bufio.Writer with an empty buffer, hands it a reader.
+type readFromSink struct{ s *Sink }
+
+func (f *readFromSink) Write(p []byte) (int, error) { return f.s.Write(p) }
+func (f *readFromSink) ReadFrom(r io.Reader) (int64, error) {
+	f.s.aux++
+	b, rerr := io.ReadAll(r)
+	n, err := f.s.Write(b)
+	if err == nil {
+		err = rerr
+	}
+	return int64(n), err
+}
+
 // bufferSink: the writing side of bytes.Buffer's method set (a size-limited or quota-checking
 // buffer that embeds bytes.Buffer looks like this), without Flush/Buffered/Available, so it
 // is not a util.BufWriter.
@@ -521,6 +542,8 @@ func mkStack(name string, s *Sink, y *yielder) io.Writer {
 		return &stringSink{s}
 	case name == "W1b":
 		return &bufferSink{s}
+	case name == "W1r":
+		return &readFromSink{s}
 	case name == "W3":
 		return &unbuf{s: s, y: y}
 	case name == "W4":
@@ -576,7 +599,7 @@ func genStack(r *Rng) string {
 	switch r.Intn(3) {
 	case 0:
 		if g := NewRng(r.Next()); g.Chance(1, 4) {
-			return pick(g, []string{"W1f", "W1s", "W1b"})
+			return pick(g, []string{"W1f", "W1s", "W1b", "W1r"})
 		}
 		return "W1"
 	case 1:
